@@ -48,6 +48,12 @@ def cases(tier, seed):
 def _layouts(r, f, P, name, sig, case, fam, th):
     alone = np.array([np.asarray(f(P[i:i + 1]), float)[0] for i in range(len(P))])
     full = np.asarray(f(P.copy()), float)
+    same = np.array(P, dtype=float)          # the same array object twice: no in-place edits, same answer
+    a1, a2 = np.asarray(f(same), float), np.asarray(f(same), float)
+    if not np.array_equal(same, P) or not np.array_equal(a1, a2, equal_nan=True):
+        r.violation(f'{sig}:{name}:argument-reuse', f'{fam} theta={th}: {name} '
+                    f'{"modified its argument" if not np.array_equal(same, P) else "answers differently the second time"} '
+                    f'when the same array object is evaluated twice', case=case)
     rev = np.asarray(f(P[::-1].copy()), float)[::-1]
     k = -(-1000 // len(P))
     tiled = np.asarray(f(np.tile(P, (k, 1))), float).reshape(k, len(P))
